@@ -11,7 +11,9 @@ static int cmd_scan(int, char**) {
     json out; out["i"] = in.contains("i") ? in["i"] : json(idx);
     idx++;
     th::emit({{"begin", out["i"]}});
+    th::watch(out["i"].is_number() ? out["i"].get<long>() : -1, 30);
     ScanResult sr = scan(files, mainf);
+    th::unwatch();
     json toks = json::array();
     for (auto& t : sr.toks) toks.push_back(json::array({(int)t.t, th::tohex(t.text), t.file, t.line}));
     json errs = json::array();
